@@ -31,9 +31,10 @@ func init() {
 
 // oddReader hands out the stream in 1..7 byte pieces (buffering independence).
 type oddReader struct {
-	p   []byte
-	rng *prng.R
-	one bool
+	p       []byte
+	rng     *prng.R
+	one     bool
+	eofLast bool // the final piece is returned together with io.EOF (legal for an io.Reader)
 }
 
 func (o *oddReader) Read(b []byte) (int, error) {
@@ -52,6 +53,9 @@ func (o *oddReader) Read(b []byte) (int, error) {
 	}
 	copy(b, o.p[:n])
 	o.p = o.p[n:]
+	if len(o.p) == 0 && o.eofLast {
+		return n, io.EOF
+	}
 	return n, nil
 }
 
@@ -287,6 +291,9 @@ func c01filesChild(raw json.RawMessage, scratch string) {
 		if i%10 == 3 && len(data) < 200000 {
 			rd = bufio.NewReaderSize(&oddReader{p: data, rng: rng.Split(5), one: i%20 == 3}, 16)
 			mode = "dribble"
+		} else if i%10 == 7 && len(data) < 200000 {
+			rd = &oddReader{p: data, rng: rng.Split(5), eofLast: true} // unbuffered short reads, last bytes arrive with io.EOF
+			mode = "short+eof"
 		}
 		if sig, what := checkLoader(rd, recs, desc); sig != "" {
 			r.Violation(sig, what, d)
